@@ -106,6 +106,13 @@ for (p, fl), r in zip(jobs, pmap(lambda j: build_pack(g, j[0], j[1], argvs=[[]])
         u = dict(p).get(n)
         name = u.name if u else "exit"
         sig = "names-lost:" + re.sub(r"decl=\w+ refl=\w+ ", "", name) if name.startswith("reflect") else "names-lost:" + name
+        m = re.search(r"plain build prints\n(.*)\ngarbled build prints\n(.*)$", desc, re.S)
+        if m and re.search(r"alias\+(generic)?embed", name):
+            pl, gl = m.group(1).split("\n"), m.group(2).split("\n")
+            dl = [(x, y) for x, y in zip(pl, gl) if x != y]
+            # the only difference is the name of the embedded field, which is the alias's name in the plain build
+            if len(pl) == len(gl) and len(dl) == 1 and re.match(r"A\d+_\d+ ", dl[0][0]) and dl[0][0].split(" ", 1)[1:] == dl[0][1].split(" ", 1)[1:]:
+                sig = "names-lost:embedded-alias-field-name"
         R.violation(sig, "flags %s unit %s: %s" % (fl, name, desc), {"module/" + k: v for k, v in assemble([(n, u)], header_main=PTR_HELPER).items()} if u else None)
 # ---- scripted map-iteration worlds (engine B): the reflection analysis must not depend on garble's map iteration order
 gmw = Garble(binpath=build_garble_mapworld(), name="c08")
